@@ -31,6 +31,7 @@ Theorem callcache_tie :
   /\ (forall n t, gen_put_expiry n t = put_expiry n t)
   /\ (forall l c, gen_over_capacity l c = over_capacity l c)
   /\ gen_evict_oldest = evict_oldest
+  /\ gen_mint_none_guard = mint_none_guard
   /\ (forall t, 4 * gen_cache_ttl_sec t = cache_ttl t)
   /\ (forall t now created, gen_cursor_expired (Z.of_N t) (Z.of_N (sec now)) (Z.of_N created) = expired t now created)
   /\ (forall t now created, gen_call_expired (Z.of_N t) (Z.of_N (sec now)) (Z.of_N created) = expired t now created)
